@@ -422,6 +422,7 @@ def check_all(case, props=None):
     # ---------------------------------------------------------------- C08 no idling
     if v.ref is not None and not v.bypassed:
         evs = v.evs
+        controlled_run = any(e["kind"] == "CHOICE" for e in evs)
         for pos, e in enumerate(evs):
             if e["kind"] != "WAIT_CALL":
                 continue
@@ -434,6 +435,18 @@ def check_all(case, props=None):
             if len(dac) == len(waited):
                 continue
             st["c08_blocking_waits"] += 1
+            if controlled_run:
+                # "independent ready nodes are actually run concurrently up to the limit": under the controller every
+                # dispatched node that has a worker is inside its function when the wait is logged
+                fl0 = in_flight(s)
+                queued = [x for x in fl0 if not (x in v.xenter and v.xenter[x] < s)]
+                pend_tasks = [ee for ee in evs if ee["kind"] == "TASK_NEW" and ee["seq"] < s and ee["task"] not in v.task2fut
+                              and str(ee.get("coro", "")).endswith("to_thread_in_executor")]
+                st["c08_actual_concurrency_checks"] += 1
+                if (queued or pend_tasks) and len(fl0) + len(pend_tasks) <= v.mc and e["wkind"] == "async" or (queued and e["wkind"] == "thread" and len(fl0) <= v.mc):
+                    pool = next((pe for pe in evs if pe["kind"] == "POOL_NEW"), {})
+                    add("C08", "dispatched_node_not_running_while_scheduler_blocks", wait_seq=s, wkind=e["wkind"], queued=sorted(queued),
+                        in_flight=sorted(fl0), max_concurrency=v.mc, pool_max_workers=pool.get("max_workers"))
             steps = [s]
             if e["rw"] == B.ALL_COMPLETED:
                 # evaluate again after each controlled completion but the last
@@ -614,6 +627,11 @@ def check_generic(log):
         def add(prop, mech, **w):
             viol.append({"prop": prop, "mech": "generic:" + mech, "witness": dict(w, token=tok)})
 
+        for e in evs:
+            if e["kind"] == "SPIN":
+                add("C09", "scheduler_spins", steps=e["steps"], limit=e["limit"])
+            elif e["kind"] == "DEADLOCK":
+                add("C09", "deadlock_wait_on_nothing_that_can_finish", wkind=e["wkind"], futs=e["futs"])
         for x, c in count.items():
             st["generic_c03_nodes"] += 1
             if c > 1:
